@@ -78,6 +78,15 @@ theorem stream_exactly_once (ms : List (List UInt8)) (h : ∀ m ∈ ms, Whole m)
   rw [show ({} : Reader) = { scan := {}, curRev := [], doneRev := [] } from rfl, this]
   simp [Reader.done]
 
+/-- **HTTP transport**: a request or reply body carries one written message; however net/http hands the body over
+(an announced length read in one piece, or chunked transfer encoding in any number of pieces of any sizes) the
+side reading it gets exactly that message, once (stream op `http`; seeded change C17-r4 read nothing from bodies of
+unannounced length, C17-r5 sent a body twice) -/
+theorem http_body_one_message (m : List UInt8) (h : Whole m) (chunks : List (List UInt8))
+    (hj : chunks.flatten = m ++ [cNewline]) : readChunks chunks = [m] := by
+  apply stream_exactly_once [m] (by intro x hx; simp at hx; subst hx; exact h) chunks
+  simpa using hj
+
 /-- **concurrent locked writers**: each writer emits whole messages under the write lock, so the byte stream is
 the concatenation of whole messages in *some* order `order` (any interleaving of the writers); the reader
 delivers exactly that order — never a mixture of two messages -/
